@@ -179,6 +179,42 @@ func init() {
 					flag = fmt.Sprintf("!MATCH-DIFFERS-FROM-COMPILED-PATTERN:subject %d compiled=%v Match=%v", i, ok, m)
 				}
 			}
+			// one rule object serves requests of both kinds (an engine fed URL and hostname requests, DNS and web engines
+			// over one storage): what it answers to a request does not depend on the kind of the requests it saw before
+			if flag == "" && len(subjects) > 0 {
+				plain := p
+				if f[1] == "1" {
+					plain += "$match-case"
+				}
+				mk := func() *rules.NetworkRule { r, _ := rules.NewNetworkRule(plain, 1); return r }
+				if ra, rb := mk(), mk(); ra != nil && rb != nil {
+					protect(func() {
+						hosts := []string{}
+						for _, s := range subjects {
+							if h := rules.NewRequest(s, "", rules.TypeOther).Hostname; h != "" {
+								hosts = append(hosts, h)
+							}
+						}
+						hosts = append(hosts, "h.org", "x.org")
+						// order A: a hostname request first, URL requests afterwards
+						ra.Match(rules.NewRequestForHostname(hosts[0]))
+						for i, s := range subjects {
+							fresh := mk().Match(rules.NewRequest(s, "", rules.TypeOther))
+							if m := ra.Match(rules.NewRequest(s, "", rules.TypeOther)); m != fresh && flag == "" {
+								flag = fmt.Sprintf("!ANSWER-DEPENDS-ON-EARLIER-REQUESTS:url subject %d after a hostname request: %v, fresh rule: %v", i, m, fresh)
+							}
+						}
+						// order B: a URL request first, hostname requests afterwards
+						rb.Match(rules.NewRequest(subjects[0], "", rules.TypeOther))
+						for _, h := range hosts {
+							fresh := mk().Match(rules.NewRequestForHostname(h))
+							if m := rb.Match(rules.NewRequestForHostname(h)); m != fresh && flag == "" {
+								flag = fmt.Sprintf("!ANSWER-DEPENDS-ON-EARLIER-REQUESTS:hostname %q after a URL request: %v, fresh rule: %v", h, m, fresh)
+							}
+						}
+					})
+				}
+			}
 			st.Inc(fmt.Sprintf("status_%d", status))
 			if hit {
 				st.Inc("some_subject_accepted")
